@@ -10,7 +10,9 @@
                                      defaultReq.MaxEditDistance`; SkipDocstrings never replaced)
      app/analyze_usecase.go          createAnalysisTasks (clone request: MaxEditDistance = DefaultCloneRequest()'s),
                                      getFilePatterns (patterns without a configuration file)
-     cmd/pyscn/analyze.go            generateOutput (no format flag: html/json/csv/yaml of cfg.Output.Format)
+     cmd/pyscn/analyze.go            generateOutput (no format flag: html/json/csv/yaml of cfg.Output.Format),
+                                     createUseCaseConfig (--select sets ExplicitSelection)
+     app/analyze_usecase.go          Execute / deadCodeDisabledInConfig ([dead_code] enabled = false skips the analysis)
      service/dead_code_service.go    detectionEnabled, convertToFunctionDeadCode
      internal/config/pyscn_config.go DefaultPyscnConfig (AnalysisIncludePatterns, AnalysisExcludePatterns)
 
@@ -42,6 +44,31 @@ Definition fmt_json : Z := 2.
 Definition fmt_html : Z := 5.
 Definition plumb_output_format : plumbing := plumbing_of analyze_output_format_uses_file (NotCopied fmt_html).
 Definition key_output_format : keyspec := mk_key PNonEmpty plumb_output_format fmt_html 1 5.
+
+(* ---- [dead_code] enabled: pointer-typed bool, default true; the file-side counterpart of --skip-deadcode / --select ---- *)
+Definition plumb_dead_code_enabled : plumbing := plumbing_of analyze_dead_code_enabled_uses_file (NotCopied 1).
+Definition key_dead_code_enabled : keyspec := mk_key PPointer plumb_dead_code_enabled 1 1 0.
+
+(* does dead code detection run?  [select]: None = no --select, Some b = --select given, b = it names deadcode;
+   [skip]: --skip-deadcode (only read without --select, createUseCaseConfig); [file]: the key *)
+Definition dead_code_runs (select : option bool) (skip : bool) (file : option bool) : bool :=
+  match select with
+  | Some named => named                                         (* ExplicitSelection: the file is not consulted *)
+  | None =>
+      if skip then false
+      else if analyze_dead_code_enabled_uses_file then match file with Some b => b | None => true end
+      else true
+  end.
+
+(* the property: what the command line says explicitly, else the file, else the default (on) *)
+Definition dead_code_runs_spec (select : option bool) (skip : bool) (file : option bool) : bool :=
+  match select with
+  | Some named => named
+  | None => if skip then false else match file with Some b => b | None => true end
+  end.
+
+Definition run_dead_code_runs (select : option bool) (skip : bool) (file : option bool) : bool * bool :=
+  (dead_code_runs select skip file, dead_code_runs_spec select skip file).
 
 (* ---- [dead_code] detect_after_return / _break / _continue / _raise, detect_unreachable_branches -------------------- *)
 Inductive dead_reason := RAfterReturn | RAfterBreak | RAfterContinue | RAfterRaise | RBranch | ROtherReason.
